@@ -945,6 +945,11 @@ reg(Prop("C01", "Playable moves are exactly the legal moves of chess", "Properti
                          "list against the model, and the playable list against legal_spec enumerated over all candidate "
                          "encodings (clauses 1 not legal / 2 missing / 3 duplicate); non-trivial = every such position; "
                          "distinct by FEN (placement, side to move, rights, ep target, clocks)"),
+          StreamCfg("c01reach", 1200, 60000, judge="judge_c01reach",
+                    rule="root (fresh history) + 1..24 legal moves played with MakeMove (play-outs biased towards double pushes that "
+                         "create en-passant rights, captures, castling, promotions); the judge recomputes the reached position from "
+                         "the rules alone (iterated succ_spec) and compares its legal moves with the playable moves reported after "
+                         "the play-out; distinct = distinct reached FENs"),
           StreamCfg("perft", 120, 420, judge="judge_perftx", model=False,
                     rule="debug.Perft against the spec's perft (legal_moves + succ_spec): hand roots, then random roots "
                          "of debug/standard.epd, then positions reached by play; depth = the largest d <= 3 (thorough: 4) "
